@@ -163,6 +163,12 @@ func (s *Linear) Nice(o TickOptions) {
 	}
 
 	firstN, lastN, spacing := s.spacingAtLevel(level, true)
+	if math.IsInf(spacing, 0) {
+		// Only an infinite tick spacing satisfies o (o.Max is
+		// too small to cover the domain), so there is no nice
+		// domain. Leave the domain alone.
+		return
+	}
 	s.Min = firstN * spacing
 	s.Max = lastN * spacing
 }
